@@ -167,12 +167,13 @@ shape = [3, 3], type = oper, isHerm = True
         )
 
     dims = [[int(2*j + 1)]]*2
+    # For j = 0 the ladder operators are the 1x1 zero operator.
     if which == '+':
         return Qobj(_jplus(j, dtype=dtype), dims=dims, dtype=dtype,
-                    isherm=False, isunitary=False, copy=False)
+                    isherm=(j == 0), isunitary=False, copy=False)
     if which == '-':
         return Qobj(_jplus(j, dtype=dtype).adjoint(), dims=dims, dtype=dtype,
-                    isherm=False, isunitary=False, copy=False)
+                    isherm=(j == 0), isunitary=False, copy=False)
     if which == 'x':
         A = _jplus(j, dtype=dtype)
         return Qobj(_data.add(A, A.adjoint()) * 0.5, dims=dims, dtype=dtype,
@@ -1075,7 +1076,7 @@ shape = [4, 4], type = oper, isHerm = False
     dtype = dtype or settings.core["default_dtype"] or _data.Dense
     a = destroy(N, offset=offset)
     out = (alpha * a.dag() - np.conj(alpha) * a).expm(dtype=dtype)
-    out.isherm = (alpha == 0.)
+    out.isherm = (N == 1) or (alpha == 0.)
     out._isunitary = True
     return out
 
